@@ -42,6 +42,18 @@ CHECKS = {
         'harnesses': [
             {'name': 'Harness_C09_assertion', 'pkg': 'saml', 'replay': 'direct', 'must_reach': ['returned'],
              'opts': {'time_res': 1000000, 'panic_is_violation': True}, 'quick': {'K': 2}, 'thorough': {'K': 3}},
+            {'name': 'Harness_C09_idpvalidate', 'pkg': 'saml', 'replay': 'direct', 'must_reach': ['returned'],
+             'opts': {'time_res': 1000000, 'panic_is_violation': True}, 'quick': {'K': 1}, 'thorough': {'K': 2}},
+        ],
+    },
+    'C05': {
+        'level_text': 'z3 decides, for all request fields, instants, tolerances and registry contents within the shape bound, that Validate succeeds only for fresh, version-2.0, correctly addressed requests from a registered issuer and that the selected endpoint is exactly the registered endpoint the documented priority picks; replayed natively.',
+        'level_note': 'real IdpAuthnRequest.Validate, getACSEndpoint, IdentityProvider.Metadata executed from SSA; request = arbitrary AuthnRequest struct (Issuer nil-able) marshalled by encoding/xml (assumed to round-trip), registry = harness provider answering found/ErrNotExist/other, metadata with <=1 SPSSODescriptor x <=2 ACS endpoints (quick) / <=2 x <=2 (thorough), arbitrary Binding/Location/Index/IsDefault. Outside: request decoding (base64/flate), ServeSSO HTTP plumbing.',
+        'harnesses': [
+            {'name': 'Harness_C05_validate', 'pkg': 'saml', 'replay': 'direct', 'must_reach': ['validated', 'rejected'],
+             'opts': {'time_res': 1000000},
+             'quick': {'K': 1, 'lens_by_tag': [['SPSSODescriptors', [1, 0]], ['AssertionConsumerServices', [1, 0, 2]]]},
+             'thorough': {'K': 1, 'lens_by_tag': [['SPSSODescriptors', [1, 0, 2]], ['AssertionConsumerServices', [1, 0, 2]]]}},
         ],
     },
     'C12': {
@@ -49,6 +61,13 @@ CHECKS = {
         'level_note': 'real MakeAuthenticationRequest, nameIDFormat, randomBytes, AuthnRequest.Element and the etree builder code executed from SSA; RandReader is a harness reader returning solver-chosen bytes. Outside: deflate/base64/XML serialisation (library loops).',
         'harnesses': [
             {'name': 'Harness_C12_authnrequest', 'pkg': 'saml', 'replay': 'direct', 'must_reach': ['made']},
+        ],
+    },
+    'C13': {
+        'level_text': 'z3 decides, for every method string at once and each key kind, that GetSigningContext succeeds only for a supported method matching the key type and configures exactly that method; replayed natively with real RSA/ECDSA/Ed25519 keys.',
+        'level_note': 'real GetSigningContext plus goxmldsig NewSigningContext/SetSignatureMethod/GetSignatureMethodIdentifier executed from SSA; keys are opaque objects of dynamic type *rsa.PrivateKey / *ecdsa.PrivateKey / ed25519.PrivateKey. Outside: that signatures verify (cryptography).',
+        'harnesses': [
+            {'name': 'Harness_C13_context', 'pkg': 'saml', 'replay': 'direct', 'must_reach': ['context', 'refused']},
         ],
     },
     'C10': {
